@@ -80,10 +80,10 @@ func rcptComps(maxTotal int) []rcptComp {
 }
 
 type rcptCase struct {
-	Lists  [5][]string // to cc bto bcc audience
-	Actor  string      // "" = unset
-	Block  string      // "" = not a Block; else the object token
-	Kind   string
+	Lists [5][]string // to cc bto bcc audience
+	Actor string      // "" = unset
+	Block string      // "" = not a Block; else the object token
+	Kind  string
 }
 
 func (r rcptCase) String() string {
